@@ -13,6 +13,7 @@ import (
 )
 
 type fnInfo struct {
+	defBlk []*ssa.BasicBlock // defining block per register (nil for params/free vars)
 	idx   map[ssa.Value]int
 	n     int
 	ipdom map[*ssa.BasicBlock]*ssa.BasicBlock // nil entry => exit
@@ -211,10 +212,12 @@ func (in *Interp) info(fn *ssa.Function) *fnInfo {
 		fi.idx[p] = n
 		n++
 	}
+	fi.defBlk = make([]*ssa.BasicBlock, n)
 	for _, b := range fn.Blocks {
 		for _, ins := range b.Instrs {
 			if v, ok := ins.(ssa.Value); ok {
 				fi.idx[v] = n
+				fi.defBlk = append(fi.defBlk, b)
 				n++
 			}
 		}
@@ -1351,6 +1354,31 @@ func (in *Interp) tryMerge(g *Goroutine, fr *Frame, x *ssa.If, c *Term) (ok bool
 				panic(mergeAbort{"phi not written in both arms"})
 			}
 			regWrites[i] = merged(va, vb)
+		}
+		// values defined in blocks that dominate J (loop-carried phis and everything computed on the
+		// way to the branch, re-executed by an arm that went around an enclosing loop) are live after J too
+		need := func(i int) bool {
+			d := fr.info.defBlk[i]
+			return d != nil && d != J && d.Dominates(J)
+		}
+		for i, va := range a.regs {
+			if _, done := regWrites[i]; done || !need(i) {
+				continue
+			}
+			vb, okb := b.regs[i]
+			if !okb {
+				vb = fr.regs[i]
+			}
+			regWrites[i] = merged(va, vb)
+		}
+		for i, vb := range b.regs {
+			if _, done := regWrites[i]; done || !need(i) {
+				continue
+			}
+			if _, oka := a.regs[i]; oka {
+				continue
+			}
+			regWrites[i] = merged(fr.regs[i], vb)
 		}
 	}
 	var ret Value
